@@ -50,12 +50,39 @@ func NewHandlerLevel(kind string, w io.Writer, threshold slog.Level, addSource b
 	panic("logrun: unknown handler kind " + kind)
 }
 
+var cancelledCtx = func() context.Context {
+	c, cancel := context.WithCancel(context.Background())
+	cancel()
+	return c
+}()
+
 // EmitVia logs one record through one of the Logger's entry points: 0 Log, 1 the level's own
 // method (Debug / Info / Warn / Error; Fatal would end the process, so level 4 uses Log), 2 LogAttrs
 // (nodes are passed as slog.Attr), 3 the level's f-method / Logf (attributes are not passed: those
-// methods take none). Each entry point has one call site here, shared by the run and its alone replay.
+// methods take none), 4 Panic and 5 Panicf (they log at ERROR whatever level is given, then panic
+// with the message: recovered here; 5 passes no attributes), 6 Log and 7 LogAttrs with a context
+// that is already cancelled (logging does not depend on it). Each entry point has one call site
+// here, shared by the run and its alone replay.
 func EmitVia(l *logger.Logger, via, level int, msg string, nodes []attrgen.Node) {
 	switch via {
+	case 4:
+		func() {
+			defer func() { recover() }()
+			l.Panic(msg, attrgen.Args(nodes)...)
+		}()
+	case 5:
+		func() {
+			defer func() { recover() }()
+			l.Panicf("%s", msg)
+		}()
+	case 6:
+		l.Log(cancelledCtx, Levels[level], msg, attrgen.Args(nodes)...)
+	case 7:
+		attrs := make([]slog.Attr, len(nodes))
+		for i, n := range nodes {
+			attrs[i] = n.Attr()
+		}
+		l.LogAttrs(cancelledCtx, Levels[level], msg, attrs...)
 	case 1:
 		args := attrgen.Args(nodes)
 		switch level {
